@@ -26,8 +26,8 @@ ASSUMPTIONS = [
     "magnitudes up to 1e3 (R) / 5e2 (P)",
 ]
 BUDGET = {
-    "quick": {"cases": 16000, "seconds": 60, "shards": 8},
-    "thorough": {"cases": 400000, "seconds": 480, "shards": 16},
+    "quick": {"cases": 60000, "seconds": 90, "shards": 8},
+    "thorough": {"cases": 2000000, "seconds": 900, "shards": 16},
 }
 REQUIRED_OBS = ["finite_checked", "symmetric_checked", "nonneg_checked", "zero_self_checked", "triangle_checked",
                 "class:identical", "class:parallel", "class:zeros", "class:dim1", "class:collinear"]
